@@ -316,6 +316,16 @@ func (*ExprBridge).CreateEnhancedExprEnvironment$2
   observe verdict := matchesLikePattern
   atreturn the-matchers-verdict-is-the-answer: result == $verdict
 
+// the functions offered to compiled conditions: each name, in lower and in upper case, is bound to a wrapper that runs
+// that very function with the arguments given
+func (*ExprBridge).RegisterStreamSQLFunctionsToExpr$1$1
+  props C06 C13 C20
+  modifies *
+  before Execute a-registered-name-runs-its-own-function-with-the-arguments-given: seqeq($arg2, params)
+  observe val := Execute
+  observe err := Execute#1
+  atreturn the-functions-answer-is-the-answer: result0 == $val && result1 == $err
+
 // ---- what the rewriting steps look for
 func (*ExprBridge).ContainsLikeOperator
   props C13 C06 C20
